@@ -128,3 +128,34 @@ Definition resp_b (n d : poly) (x y : list Qc) : bool :=
 Definition fdot (t : fterms) (G : Qc -> Qc) : Qc := fold_right (fun e acc => snd e * G (fst e) + acc) 0 t.
 (* gain at z = 1 *)
 Definition dc (p : poly) : Qc := dot p (fun _ => 1).
+
+(* ------------------------------------------------------------------ nested filter lists *)
+(* the meaning of a (nested) CascadeFilter / ParallelFilter: the product / the sum of the meanings of the
+   members it holds; an empty cascade has no polynomials (reduce of nothing), an empty bank is 0 *)
+Fixpoint ssem (s : sexpr) : option frac :=
+  match s with
+  | XF e => sem e
+  | XCasc l =>
+      match l with
+      | [] => None
+      | m :: r =>
+          (fix go (l : list sexpr) (acc : option frac) : option frac :=
+             match l with
+             | [] => acc
+             | m' :: r' => go r' (obind acc (fun a => obind (ssem m') (fun b => Some (q_mul a b))))
+             end) r (ssem m)
+      end
+  | XPar l =>
+      match l with
+      | [] => Some (q_const 0)
+      | m :: r =>
+          (fix go (l : list sexpr) (acc : option frac) : option frac :=
+             match l with
+             | [] => acc
+             | m' :: r' => go r' (obind acc (fun a => obind (ssem m') (fun b => Some (q_add a b))))
+             end) r (ssem m)
+      end
+  end.
+(* a fraction whose difference equation determines the output *)
+Definition runnable (q : frac) : bool :=
+  nonnegb (fst q) && nonnegb (snd q) && negb (Qc_eqb (coefn (snd q) 0) 0).
